@@ -115,6 +115,15 @@ static int define_ext(int level, void* obj, char* spec)
   return rc;
 }
 
+// --- include files supplied on the case line: inc=<name>:<hex>
+static char* inc_names[32]; static char* inc_bodies[32]; static int ninc;
+static const char* inc_cb(const char* name, const char* calling_file, const char* calling_ns, void* ud)
+{
+  for (int i = 0; i < ninc; i++) if (!strcmp(inc_names[i], name)) return strdup(inc_bodies[i]);
+  return NULL;
+}
+static void inc_free(const char* p, void* ud) { free((void*) p); }
+
 // --- multi-block iterator over one buffer
 typedef struct { const uint8_t* data; size_t size; size_t* cuts; int ncuts; int idx; YR_MEMORY_BLOCK blk; } MB;
 static const uint8_t* mb_fetch(YR_MEMORY_BLOCK* b) { return (const uint8_t*) b->context; }
@@ -149,6 +158,13 @@ int main()
     int failed = 0, i;
     yr_compiler_create(&comp);
     yr_compiler_set_callback(comp, vf_compiler_cb, &errs);
+    for (i = 0; i < ninc; i++) { free(inc_bodies[i]); } ninc = 0;
+    for (i = 1; i < n; i++)
+      if (!strncmp(toks[i], "inc=", 4) && ninc < 32)
+      {
+        char* p[2]; if (splitc(toks[i] + 4, ':', p, 2) == 2) { size_t l; inc_names[ninc] = p[0]; inc_bodies[ninc] = (char*) unhex(p[1], &l); ninc++; }
+      }
+    if (ninc) yr_compiler_set_include_callback(comp, inc_cb, inc_free, NULL);
     // pass 1: options
     for (i = 1; i < n; i++)
     {
